@@ -202,6 +202,10 @@ pub struct Decoded {
     pub htx_len: u64,
     pub nonzero_padding: u64,
     pub max_chain: usize,
+    /// storage-accounting inconsistencies (a slot neither live nor free, a free slot on the
+    /// list of another class or on two lists): the structure is still readable, so these are
+    /// reported separately and only property C06 turns them into violations
+    pub accounting: Vec<Bad>,
 }
 
 fn check_header(img: &Img, sig1: &[u8; 8], what: &'static str, hdr: u64) -> Result<[u8; 8], Bad> {
@@ -253,6 +257,7 @@ fn free_lists(
     base: u64,
     slots: &BTreeMap<u64, u32>,
     what: &'static str,
+    accounting: &mut Vec<Bad>,
 ) -> Result<Vec<Vec<u64>>, Bad> {
     let mut all: BTreeSet<u64> = BTreeSet::new();
     let mut lists = Vec::new();
@@ -270,16 +275,14 @@ fn free_lists(
                 }
             };
             if !all.insert(cur) {
-                return bad(
-                    "free-double",
-                    format!("{what}: slot {cur} on two free lists or twice on one (list {i})"),
-                );
+                if l.contains(&cur) {
+                    return bad("free-cycle", format!("{what}: free list {i} cycles at slot {cur}"));
+                }
+                accounting.push(Bad { class: "free-double", detail: format!("{what}: slot {cur} on two free lists (again on list {i})") });
+                break;
             }
             if class_index(size) != i || (i < 15 && CLASSES[i] != size) {
-                return bad(
-                    "free-wrong-class",
-                    format!("{what}: slot {cur} of size {size} on free list {i}"),
-                );
+                accounting.push(Bad { class: "free-wrong-class", detail: format!("{what}: slot {cur} of size {size} on free list {i}") });
             }
             // free slot layout: size, one zero byte (length 0), u64 LE next
             let (_, szl) = vu64_decode(img, cur).unwrap();
@@ -347,8 +350,9 @@ pub fn decode(htx: &Img, key: &Img, val: &Img) -> Result<Decoded, Bad> {
     d.val_slots = walk_slots(val, "val")?;
     let kslots: BTreeMap<u64, u32> = d.key_slots.iter().map(|s| (s.off, s.size)).collect();
     let vslots: BTreeMap<u64, u32> = d.val_slots.iter().map(|s| (s.off, s.size)).collect();
-    d.key_free = free_lists(key, KEY_FREE_BASE, &kslots, "key")?;
-    d.val_free = free_lists(val, VAL_FREE_BASE, &vslots, "val")?;
+    let mut accounting: Vec<Bad> = Vec::new();
+    d.key_free = free_lists(key, KEY_FREE_BASE, &kslots, "key", &mut accounting)?;
+    d.val_free = free_lists(val, VAL_FREE_BASE, &vslots, "val", &mut accounting)?;
     let kfree: BTreeSet<u64> = d.key_free.iter().flatten().copied().collect();
     let vfree: BTreeSet<u64> = d.val_free.iter().flatten().copied().collect();
 
@@ -532,16 +536,17 @@ pub fn decode(htx: &Img, key: &Img, val: &Img) -> Result<Decoded, Bad> {
         let l = live_keys.contains(&s.off);
         let f = kfree.contains(&s.off);
         if !l && !f {
-            return bad("orphan-slot", format!("key slot {} (size {}) is neither live nor free", s.off, s.size));
+            accounting.push(Bad { class: "orphan-slot", detail: format!("key slot {} (size {}) is neither live nor free", s.off, s.size) });
         }
     }
     for s in &d.val_slots {
         let l = used_vals.contains_key(&s.off);
         let f = vfree.contains(&s.off);
         if !l && !f {
-            return bad("orphan-slot", format!("value slot {} (size {}) is neither live nor free", s.off, s.size));
+            accounting.push(Bad { class: "orphan-slot", detail: format!("value slot {} (size {}) is neither live nor free", s.off, s.size) });
         }
     }
+    d.accounting = accounting;
     Ok(d)
 }
 
